@@ -93,6 +93,9 @@ def run(check, prog):
     f4_metadata(check, prog)
     f6_copy_metadata(check, prog)
     f7_prepared_schema(check, prog)
+    # ... including its multi-channel branch (rule shared with C06)
+    from . import c06
+    c06.illumination_preparation(check, prog)
     f8_wiring(check, prog)
     f5_state(check, prog)
 
